@@ -436,6 +436,9 @@ func (u *clientUpdater) updateService(ctx context.Context, service ServiceDefini
 	} else if newTimestamp < currentTimestamp {
 		return nil
 	}
+	// The first entry that is stored moves the client's timestamp to the server's, so the entries of this response
+	// won't be asked for again: an entry that can't be processed must not keep the others from being stored.
+	var failures []error
 	for _, presentation := range presentations {
 		if presentation.ID == nil {
 			// can't be stored or referred to, a server should not have accepted it
@@ -445,11 +448,13 @@ func (u *clientUpdater) updateService(ctx context.Context, service ServiceDefini
 		// Check if the presentation already exists
 		credentialSubjectID, err := credential.PresentationSigner(presentation)
 		if err != nil {
-			return err
+			failures = append(failures, err)
+			continue
 		}
 		exists, err := u.store.exists(service.ID, credentialSubjectID.String(), presentation.ID.String())
 		if err != nil {
-			return err
+			failures = append(failures, err)
+			continue
 		}
 		if exists {
 			continue
@@ -460,11 +465,13 @@ func (u *clientUpdater) updateService(ctx context.Context, service ServiceDefini
 		// the validator will set the validated flag to true when it's valid
 		// it'll also remove it from the store if it's invalidated later
 		if record, err := u.store.add(service.ID, presentation, seed, serverTimestamp); err != nil {
-			return fmt.Errorf("failed to store presentation (service=%s, id=%s): %w", service.ID, presentation.ID, err)
+			failures = append(failures, fmt.Errorf("failed to store presentation (service=%s, id=%s): %w", service.ID, presentation.ID, err))
+			continue
 		} else if err = u.verifier(service, presentation); err == nil {
 			// valid, immediately activate
 			if err = u.store.updateValidated([]presentationRecord{*record}); err != nil {
-				return fmt.Errorf("failed to update validated flag (service=%s, id=%s): %w", service.ID, presentation.ID, err)
+				failures = append(failures, fmt.Errorf("failed to update validated flag (service=%s, id=%s): %w", service.ID, presentation.ID, err))
+				continue
 			}
 		} else {
 			log.Logger().WithError(err).Infof("failed to verify added presentation (service=%s, id=%s)", service.ID, presentation.ID)
@@ -475,5 +482,5 @@ func (u *clientUpdater) updateService(ctx context.Context, service ServiceDefini
 			WithField("presentationID", presentation.ID).
 			Trace("Loaded new Verifiable Presentation from Discovery Service")
 	}
-	return nil
+	return errors.Join(failures...)
 }
